@@ -884,8 +884,13 @@ class SetIndex(BaseSetIndexSortValues):
         from dask_expr._expr import Filter, Head, Tail
 
         # TODO, handle setting index with other frame
+        # NFirst/NLast yield a single partition whose divisions are unknown,
+        # while Head/Tail of a set_index have known divisions.  Expressions
+        # stacked on the Head/Tail (loc, resample, repartition, ...) were built
+        # for known divisions, so only rewrite when nothing consumes the result.
         if (
             isinstance(parent, Head)
+            and not dependents[parent._name]
             and isinstance(self._other, (int, str))
             and self._other in self.frame.columns
         ):
@@ -896,6 +901,7 @@ class SetIndex(BaseSetIndexSortValues):
 
         if (
             isinstance(parent, Tail)
+            and not dependents[parent._name]
             and isinstance(self._other, (int, str))
             and self._other in self.frame.columns
         ):
